@@ -59,7 +59,7 @@ def expected(order, units, dropins):
 def run(ctx):
     ctx.rule = ("layouts of 1-3 search directories (QUADLET_UNIT_DIRS), each optionally with a subdirectory, in 30% of the layouts one of them a symbolic link (absolute or relative target, directly or through a second link) to the directory holding the files, in some a subdirectory that is a symbolic link to a directory elsewhere; 1-5 unit names (plain, template, template instance, an instance whose instance name contains @ or a dot, volume) each placed in 1-2 "
                 "directories; drop-in files (*.conf and a non-conf decoy) placed in <unit>.d and <base>@.<type>.d directories of arbitrary search directories; every file carries a marker (a label, and a PodmanArgs tag that shows the merge order); "
-                "run end to end with --dry-run; non-trivial = a name occurs twice or a drop-in lives in another search dir than its unit; distinct = distinct layouts")
+                "run end to end with --dry-run; plus one unit with 42 / 60 drop-in files (the same names in three search directories); non-trivial = a name occurs twice or a drop-in lives in another search dir than its unit; distinct = distinct layouts")
     rng = ctx.rng
     n = ctx.volume(150, 2000)
     mism = 0
@@ -142,6 +142,30 @@ def run(ctx):
                     missing_elsewhere = all(m in want_marks for m in got_marks)
                     ctx.failures.append({"op": "e2e", "layout": [order, units, {k: v for k, v in dropins.items()}], "what": bad,
                                          "class": "DropinsOnlyBesideUnit" if (got_origin == origin.replace("/", "_") and missing_elsewhere) else None})
+        # many drop-ins of one unit: the same 14 / 20 names in each of three search directories (42 / 60 files): each name comes from the first
+        # directory, whatever the number of files (sorting must not reorder same-named entries)
+        for per_dir in (14, 20):
+            root = box.path("many%d" % per_dir)
+            files = {"d2/web.container": "[Container]\nImage=img\nPodmanArgs=--tag=main\n"}
+            for d in ("d0", "d1", "d2"):
+                for j in range(per_dir):
+                    files["%s/web.container.d/%02d-x.conf" % (d, j)] = "[Container]\nPodmanArgs=--tag=%s_%02d\n" % (d, j)
+            e2e.make_tree(root, files)
+            rc, out, err = e2e.run_quadlet([os.path.join(root, d) for d in ("d0", "d1", "d2")], os.path.join(root, "out"), dry_run=True)
+            text = e2e.parse_dry_run(out).get(os.path.join(root, "out", "web.service"), "")
+            tags = []
+            for ln in text.split("\n"):
+                if ln.startswith("ExecStart="):
+                    argv = vlib.sd_split_many([ln[len("ExecStart="):].encode()])[0] or []
+                    tags = [a[len("--tag="):] for a in argv if a.startswith("--tag=")]
+            ctx.evaluations += 1
+            ctx.count("many_dropins=%d" % (3 * per_dir))
+            ctx.nontrivial.add(("many", per_dir))
+            want = ["main"] + ["d0_%02d" % j for j in range(per_dir)]
+            if tags != want:
+                wrong = [t for t in tags if not t.startswith(("d0_", "main"))][:4]
+                ctx.failures.append({"op": "e2e", "layout": ["3 search directories x %d same-named drop-ins of web.container" % per_dir],
+                                     "what": "with %d drop-in files the survivors are not those of the first search directory in name order: %s ... (from later directories: %s)" % (3 * per_dir, tags[:6], wrong), "class": None})
     ctx.samples = [{"search_order": o, "units": u} for _, o, u, _ in [gen_layout(rng) for _ in range(3)]]
     unknown = [f for f in ctx.failures if f["class"] is None]
     ctx.oblig("direct oracle: exactly one service per file name, taken from the first directory in search order; drop-ins from <name>.d (and <base>@.<type>.d) of every search dir, earlier dir hides later of the same name; merged after the main file in the order of their file names",
